@@ -107,6 +107,8 @@ def run(ctx):
     ctx.check('R2', 'the result list starts empty in every run', ok, 'Pool.run', 'result-list-init', 'the result list is not a fresh empty list per run', where=loc(run_f, run_f.node))
 
     check_enqueue_callers(ctx, pool, run_f, cl, rule='R3')
+    from .c09 import check_reinit
+    check_reinit(ctx, pool, 'R2')
     check_redistribution(ctx, cl, 'R1')
     # ---------------------------------------------------------------- R3 hand-over needs death evidence
     gt = ctx.an.cfg(te, pool)
